@@ -5,13 +5,17 @@
 2. TLC (MCRelocRange): every type x boundary values of its field (and the 64-bit extremes): checks
    that the psABI range is exactly the set of values the field holds without loss and prints one
    REPLAY record per (type, value) with the predicted decision and field content. Three broken
-   readings of the table - signed-only R_X86_64_8/16, a half-open "no check" range that excludes
-   i64::MAX, unchecked MOVW_PREL_G0..2: defects wild once had - must each be rejected by TLC
+   readings of the table - unverified relocations in debug sections, signed-only R_X86_64_8/16, a half-open "no check" range that excludes
+   i64::MAX, unchecked MOVW_PREL_G0..2 - must each be rejected by TLC
    (anti-vacuity); if the code behaves like one of them again the links below report a VIOLATION.
+   The section kind of the place is a dimension of the cases (loaded section, or - for the absolute
+   data types, the only ones legal there - a non-alloc `.debug_info` section): the rule is the same.
 3. Binding R (end to end): every record becomes a real link - `.reloc` of exactly that type against
    an absolute symbol (`--defsym sym=v`) or, for PC-relative types, against the place itself plus
    addend v - by GNU ld, ld.lld and wild (x86-64) / ld.lld and wild (AArch64); observed: exit status
-   and the bytes at the place.  The references vote: both accept => wild must accept and the field
+   and the bytes at the place (cases predicted to fit are linked together, one link per type and
+   section kind; if a linker refuses the batch, and for the cases predicted not to fit, one link per
+   case).  The references vote: both accept => wild must accept and the field
    must hold v; both reject => wild must reject; split => no verdict.  A row of the spec table that
    the agreeing references contradict is a spec bug (exit 2), never a violation.
 4. Binding F: every record, plus seeded random values per type, is replayed into the real
@@ -31,14 +35,15 @@ META = {
     "ready": True,
     "level": "model_checking",
     "technique": "TLA+ table of relocation range checks (psABI) checked by TLC for tightness; every enumerated (type, boundary value) replayed end-to-end through real links of wild, GNU ld and ld.lld (three-way vote) and in-process into the real relocation table/write_to_buffer",
-    "level_text": "RelocRange.tla gives, for 10 x86-64 and 30 AArch64 static relocation types, the psABI range check and the field content; TLC checks on ~1000 (type, boundary value) cases that the range is exactly the set of values the field holds without loss and exports each case with the predicted accept/reject and field bytes; every case (quick: every x86-64 case and every second AArch64 case) is linked for real by wild and by GNU ld + ld.lld (x86-64) or ld.lld (AArch64) and wild's exit status and written bytes are compared under the three-way vote; the same cases plus 10^3-10^4 seeded random values per type are replayed into RelocationKindInfo::write_to_buffer.",
+    "level_text": "RelocRange.tla gives, for 10 x86-64 and 30 AArch64 static relocation types, the psABI range check and the field content; TLC checks on ~1200 (type, section kind, boundary value) cases (place in a loaded section, or for the absolute data types also in a non-alloc .debug_info section) that the range is exactly the set of values the field holds without loss and exports each case with the predicted accept/reject and field bytes; every case (quick: every x86-64 case and every second AArch64 case) is linked for real by wild and by GNU ld + ld.lld (x86-64) or ld.lld (AArch64) and wild's exit status and written bytes are compared under the three-way vote; the same cases plus 10^3-10^4 seeded random values per type are replayed into RelocationKindInfo::write_to_buffer.",
     "level_note": "GOT/TLS-relative types and RISC-V/LoongArch are not in the table; AArch64 has a single reference linker (ld.lld 14), so rows where lld and the psABI transcription differ are reported as no-verdict; values are boundary classes + random, not dense; misaligned values of scaled types are outside the check.",
     "engine": "tlc",
 }
 
 BROKEN = [("mc/RelocRange_broken_signed8.cfg", "TightInv"),
           ("mc/RelocRange_broken_halfopen.cfg", "UncheckedInv"),
-          ("mc/RelocRange_broken_uncheckedprel.cfg", "NoTruncInv")]
+          ("mc/RelocRange_broken_uncheckedprel.cfg", "NoTruncInv"),
+          ("mc/RelocRange_broken_debug.cfg", "NoTruncInv")]
 M64 = 1 << 64
 PCREL_MARKS = ("_PC", "PREL", "PLT32", "TSTBR", "CONDBR", "JUMP26", "CALL26")
 MARK = b"<MK:c12:KM>"
@@ -82,11 +87,12 @@ def region(t, v):
 def vkey(t, v, what):
     """Stable key of a disagreement: the relocation type and the class of the value.
     One root cause = one key: the unchecked (64-bit / _NC) types all share AllowedRange::no_check()."""
+    name = t["name"] + ("@debug" if t.get("place") == "debug" else "")
     if what == "rejected" and t["sign"] == "none" and v == (1 << 63) - 1:
         return "unchecked-type:value-i64-max:rejected"
     if what == "accepted":
-        return f"{t['name']}:overflow-accepted"
-    return f"{t['name']}:{region(t, v)}:{what}"
+        return f"{name}:overflow-accepted"
+    return f"{name}:{region(t, v)}:{what}"
 
 
 def stored_ok(t, word, v, want_field):
@@ -141,12 +147,16 @@ def model(cov):
         raise ToolError(f"{r.distinct} states but {len(r.records)} REPLAY records")
     cov["states"], cov["transitions"] = r.distinct, r.generated
     cov["tlc_runs"] = [{"cfg": "mc/RelocRange_quick.cfg", **r.summary()}]
-    # anti-vacuity: the broken readings of the table (defects wild once had) must each be rejected
-    for cfg, inv in BROKEN:
-        b = tlc.run_tlc("MCRelocRange", cfg, workers=1, timeout=300, coverage=False)
-        if b.ok or b.violated != inv:
-            raise ToolError(f"broken variant {cfg} was not rejected on {inv} (got {b.violated}): the spec is vacuous there")
-        cov["tlc_runs"].append({"cfg": cfg, "expected_violation": b.violated})
+    # anti-vacuity: the broken readings of the table (defects wild once had, or that a change could
+    # introduce) must each be rejected
+    def broken(c):
+        cfg, inv = c
+        return cfg, inv, tlc.run_tlc("MCRelocRange", cfg, workers=1, timeout=300, coverage=False)
+    with ThreadPoolExecutor(max_workers=4) as ex:
+        for cfg, inv, b in ex.map(broken, BROKEN):
+            if b.ok or b.violated != inv:
+                raise ToolError(f"broken variant {cfg} was not rejected on {inv} (got {b.violated}): the spec is vacuous there")
+            cov["tlc_runs"].append({"cfg": cfg, "expected_violation": b.violated})
     recs = []
     for x in r.records:
         x["v_int"] = bits_to_int(x["v"])
@@ -164,94 +174,134 @@ _obj_cache = {}
 _obj_lock = threading.Lock()
 
 
-def gen_case(d, idx, rec):
-    """Assembly + link arguments for one (type, value)."""
-    arch, v = rec["arch"], rec["v_int"]
-    if rec["pcrel"]:
-        target = f"place + {v:#x}" if v < (1 << 63) else f"place - {M64 - v:#x}"
-        defsym = []
-    else:
-        target = "c12sym"
-        defsym = ["--defsym", f"c12sym={v:#x}"]
-    init = f".word {rec['op_int']:#x}\n    .word 0" if rec["insn"] else ".skip 8"
+def marker(gid, k):
+    return f"<MK{gid:04x}{k:04x}>"          # 12 bytes, 8-aligned: the place follows immediately
+
+
+def gen_group(d, gid, group):
+    """One object holding a place per case of `group` (cases of one relocation type and one kind of
+    section), and the --defsym arguments.  Absolute cases take their value from `--defsym`, so their
+    object depends only on (type, section kind, number of places) and is assembled once."""
+    rec0 = group[0]
+    arch, debug = rec0["arch"], rec0["place"] == "debug"
+    progbits = "@progbits" if arch == "x86_64" else "%progbits"
+    section = f'.section .debug_info,"",{progbits}' if debug else f'.section .text.c12,"ax",{progbits}'
     exit_code = asm.EXIT_X86 if arch == "x86_64" else "    mov x8, #93\n    mov x0, #0\n    svc #0\n"
-    src = f"""
-    .globl _start
-    .text
-_start:
-{exit_code}
-    .section .text.c12,"ax"
-    .balign 8
-    .ascii "{MARK.decode()}"
-    .balign 4
-    .globl c12sym
-place:
-    .reloc ., {rec['name']}, {target}
-    {init}
-"""
-    if not rec["pcrel"]:
-        # the object of an absolute case does not depend on the value (it comes from --defsym):
-        # assemble it once per type
-        key = (arch, rec["name"])
+    body, defsym = [], []
+    for k, rec in enumerate(group):
+        v = rec["v_int"]
+        if rec["pcrel"]:
+            target = f"place{k} + {v:#x}" if v < (1 << 63) else f"place{k} - {M64 - v:#x}"
+        else:
+            target = f"c12sym{k}"
+            defsym += ["--defsym", f"c12sym{k}={v:#x}"]
+            body.append(f"    .globl c12sym{k}")
+        init = f".word {rec['op_int']:#x}\n    .word 0" if rec["insn"] else ".skip 8"
+        # markers are numbered by position for the cached (absolute) objects, by group otherwise
+        mk = marker(0 if not rec["pcrel"] else gid, k)
+        body.append(f'    .balign 8\n    .ascii "{mk}"\nplace{k}:\n    .reloc ., {rec["name"]}, {target}\n    {init}')
+    src = f"    .globl _start\n    .text\n_start:\n{exit_code}\n    {section}\n" + "\n".join(body) + "\n"
+    key = None
+    if not rec0["pcrel"]:
+        key = (str(d), arch, rec0["name"], rec0["place"], len(group))
         with _obj_lock:
-            if key in _obj_cache and _obj_cache[key].parent == d:
-                return _obj_cache[key], defsym
-    p = d / f"c{idx}.s"
+            if key in _obj_cache:
+                return _obj_cache[key], defsym, src
+    p = d / f"g{gid}.s"
     p.write_text(src)
-    o = d / f"c{idx}.o"
-    if arch == "x86_64":
-        r = sh(["as", "--64", "-o", o, p], timeout=300)
-    else:
-        r = sh(["clang", "--target=aarch64-linux-gnu", "-c", "-o", o, p], timeout=300)
+    o = d / f"g{gid}.o"
+    cmd = ["as", "--64", "-o", o, p] if arch == "x86_64" else ["clang", "--target=aarch64-linux-gnu", "-c", "-o", o, p]
+    r = sh(cmd, timeout=300)
     if r.rc != 0 or r.timed_out:
-        raise ToolError(f"assembling case {rec['name']} v={v:#x} failed: {r.err[-500:]}")
-    if not rec["pcrel"]:
+        raise ToolError(f"assembling {rec0['name']} ({rec0['place']}, {len(group)} places) failed: {r.err[-500:]}")
+    if key:
         with _obj_lock:
-            _obj_cache[(arch, rec["name"])] = o
-    return o, defsym
+            _obj_cache[key] = o
+    return o, defsym, src
 
 
-def observe(path, rc):
-    if rc != 0 or not path.exists():
-        return None
-    data = path.read_bytes()
-    i = data.find(MARK)
-    if i < 0:
-        return None
-    j = i + 12   # marker (11 bytes) starts 8-aligned, the place is the next 4-aligned offset
-    return int.from_bytes(data[j:j + 8], "little")
-
-
-def run_case(d, idx, rec, wild):
-    o, defsym = gen_case(d, idx, rec)
-    emu = [] if rec["arch"] == "x86_64" else ["-m", "aarch64linux"]
+def link_group(d, gid, group, wild):
+    """Link one group with wild and the reference linkers.  Returns {linker: {"ok", "err", "words"}},
+    "args", "src"."""
+    rec0 = group[0]
+    o, defsym, src = gen_group(d, gid, group)
+    emu = [] if rec0["arch"] == "x86_64" else ["-m", "aarch64linux"]
     base = emu + [str(o), "--no-gc-sections"] + defsym
     res = {}
-    linkers = [("wild", None), ("lld", ["ld.lld"])] + ([("ld", ["ld"])] if rec["arch"] == "x86_64" else [])
+    linkers = [("wild", None), ("lld", ["ld.lld"])] + ([("ld", ["ld"])] if rec0["arch"] == "x86_64" else [])
     for who, cmd in linkers:
-        out = d / f"c{idx}.{who}"
+        out = d / f"g{gid}.{who}"
         args = base + ["-o", str(out)]
         r = run_wild(args, timeout=120, wild=wild) if cmd is None else sh(cmd + args, timeout=120)
         if r.timed_out or (cmd is not None and r.rc < 0):
             # a tiny link that does not finish in 2 minutes (or a crashing reference) says nothing about
             # C12; it must not be mistaken for "rejected"
-            raise ToolError(f"{who} timed out / crashed on case {rec['name']} v={rec['v_int']:#x} (rc={r.rc})")
-        res[who] = {"ok": r.rc == 0 and not r.timed_out, "rc": r.rc, "timed_out": r.timed_out,
-                    "err": r.err[-400:], "word": observe(out, r.rc)}
+            raise ToolError(f"{who} timed out / crashed on {rec0['name']} ({rec0['place']}) (rc={r.rc})")
+        ok = r.rc == 0
+        words = [None] * len(group)
+        if ok and out.exists():
+            data = out.read_bytes()
+            for k, rec in enumerate(group):
+                mk = marker(0 if not rec["pcrel"] else gid, k).encode()
+                at = data.find(mk)
+                if at >= 0:
+                    words[k] = int.from_bytes(data[at + 12:at + 20], "little")
+        res[who] = {"ok": ok, "rc": r.rc, "err": r.err[-400:], "words": words}
         if out.exists():
             out.unlink()
     res["args"] = [a if not a.startswith(str(d)) else a.split("/")[-1] for a in base]
+    res["src"] = src
     return res
+
+
+def run_cases(d, recs, todo, wild, workers):
+    """End-to-end results per case index: cases the spec predicts to fit are linked together, one
+    link per (type, section kind) - a value that does not fit aborts a link, so if any linker
+    refuses the batch its cases are linked one by one, like the cases predicted not to fit."""
+    groups = {}
+    singles = []
+    for i in todo:
+        r = recs[i]
+        if r["fits"]:
+            groups.setdefault((r["arch"], r["name"], r["place"]), []).append(i)
+        else:
+            singles.append([i])
+    out = {}
+
+    def job(arg):
+        gid, idxs = arg
+        return idxs, link_group(d, gid, [recs[i] for i in idxs], wild)
+
+    def collect(results, retry):
+        for idxs, res in results:
+            linkers = [k for k in ("wild", "ld", "lld") if k in res]
+            if len(idxs) > 1 and not all(res[k]["ok"] for k in linkers):
+                retry += [[i] for i in idxs]
+                continue
+            for k, i in enumerate(idxs):
+                one = {w: {"ok": res[w]["ok"], "err": res[w]["err"], "word": res[w]["words"][k], "timed_out": False}
+                       for w in linkers}
+                one["args"], one["src"], one["batch"] = res["args"], res["src"], len(idxs)
+                out[i] = one
+
+    retry = []
+    with ThreadPoolExecutor(max_workers=workers) as ex:
+        batch = list(enumerate(list(groups.values()) + singles))
+        collect(ex.map(job, batch), retry)
+        collect(ex.map(job, [(len(batch) + n, g) for n, g in enumerate(retry)]), [])
+    return out, len(batch) + len(retry)
 
 
 def run(ctx):
     cov = {"samples": []}
     rng = random.Random(ctx.seed)
     recs = model(cov)
+    alloc_recs = [x for x in recs if x["place"] == "alloc"]
     types = {}
-    for x in recs:
+    for x in alloc_recs:
         types.setdefault((x["arch"], x["rtype"]), x)
-    log(f"C12: {len(recs)} TLC cases over {len(types)} relocation types")
+    log(f"C12: {len(recs)} TLC cases ({len(recs) - len(alloc_recs)} in non-alloc debug sections) over "
+        f"{len(types)} relocation types")
     wild = build_wild()
 
     pending = {}   # key -> (count, text, meta, src files)
@@ -266,14 +316,14 @@ def run(ctx):
     support = {}       # (name, region) -> set of "ok" / "spec-vs-refs"
     e2e = []
     with scratch("c12") as d:
-        def job(i):
-            return i, run_case(d, i, recs[i], wild)
-        # quick tier: every x86-64 case (two reference linkers) and every second AArch64 case (the
-        # half is chosen by the seed; thorough links all of them)
+        # quick tier: every x86-64 case (two reference linkers), every case in a non-alloc debug
+        # section, and every second AArch64 case in a loaded section (the half is chosen by the seed;
+        # thorough links all of them)
         todo = [i for i in range(len(recs))
-                if not ctx.quick or recs[i]["arch"] == "x86_64" or (i + ctx.seed) % 2 == 0]
-        with ThreadPoolExecutor(max_workers=8) as ex:
-            results = list(ex.map(job, todo))
+                if not ctx.quick or recs[i]["arch"] == "x86_64" or recs[i]["place"] == "debug"
+                or (i + ctx.seed) % 2 == 0]
+        by_case, n_groups = run_cases(d, recs, todo, wild, 8)
+        results = [(i, by_case[i]) for i in todo]
         spec_bugs = []
         lld_disagree = []
         for i, res in results:
@@ -286,51 +336,57 @@ def run(ctx):
             want_field = rec["word_int"] & rec["mask_int"]
             # the references themselves must store the value when they accept (sanity of the observer)
             for k in ("ld", "lld"):
+                if k == "lld" and rec["place"] == "debug" and name in ("R_X86_64_64", "R_AARCH64_ABS64"):
+                    # lld resolves its "symbolic" relocation type in .debug_* against a symbol without
+                    # an output section (our absolute symbol) to the tombstone 0: its acceptance
+                    # counts, its field does not
+                    continue
                 if k in res and res[k]["ok"] and fits:
                     w = res[k]["word"]
                     if not stored_ok(rec, w, v, want_field):
                         raise ToolError(f"observer/oracle problem: {k} accepted {name} v={v:#x} but the field is "
                                         f"{w} (expected {want_field:#x}); args {res['args']}")
-            e2e.append({"name": name, "v": f"{v:#x}", "fits": fits, "vote": vote, "wild_ok": res["wild"]["ok"]})
+            e2e.append({"name": name, "place": rec["place"], "v": f"{v:#x}", "fits": fits, "vote": vote,
+                        "wild_ok": res["wild"]["ok"]})
+            alloc = rec["place"] == "alloc"      # in-process verdicts lean on the loaded-section votes
             if vote == "split":
-                support.setdefault((name, reg), set()).add("split")
+                if alloc:
+                    support.setdefault((name, reg), set()).add("split")
                 continue
             if (vote == "accept") != fits:
                 if len(refs) == 2:
-                    spec_bugs.append((name, f"{v:#x}", fits, vote, res["ld"]["err"][-150:], res["lld"]["err"][-150:]))
+                    spec_bugs.append((name, rec["place"], f"{v:#x}", fits, vote, res["ld"]["err"][-150:], res["lld"]["err"][-150:]))
                 else:
-                    lld_disagree.append({"name": name, "v": f"{v:#x}", "spec_fits": fits, "lld": vote,
-                                         "lld_err": res["lld"]["err"][-120:]})
-                    support.setdefault((name, reg), set()).add("spec-vs-lld")
+                    lld_disagree.append({"name": name, "place": rec["place"], "v": f"{v:#x}", "spec_fits": fits,
+                                         "lld": vote, "lld_err": res["lld"]["err"][-120:]})
+                    if alloc:
+                        support.setdefault((name, reg), set()).add("spec-vs-lld")
                 continue
-            support.setdefault((name, reg), set()).add("ok")
+            if alloc:
+                support.setdefault((name, reg), set()).add("ok")
             if "PLT32" in name:
                 # L+A-P: the linker may route the reference through a PLT entry it chooses (wild does,
                 # for a section-symbol target), so the generator does not control the value end to end;
                 # these types are judged in-process only
                 continue
             w = res["wild"]
-            src_path = d / f"c{i}.s"
-            if not src_path.exists():
-                src_path = _obj_cache[(rec["arch"], name)].with_suffix(".s")
-            files = {"case.s": src_path.read_text()}
-            meta = {"type": name, "value": f"{v:#x}", "signed_value": signed(v), "spec_fits": fits, "references": vote,
+            where = "a loaded section" if alloc else "a non-alloc .debug_info section"
+            files = {"case.s": res["src"]}
+            meta = {"type": name, "section": rec["place"], "value": f"{v:#x}", "signed_value": signed(v), "spec_fits": fits, "references": vote,
                     "link_args": res["args"], "wild": w, "refs": {k: res[k] for k in ("ld", "lld") if k in res}}
-            if w["timed_out"]:
-                note(vkey(rec, v, "hang"), f"wild hung on {name} v={signed(v)}", meta, files)
-            elif fits and not w["ok"]:
+            if fits and not w["ok"]:
                 kind = "rejected" if ("outside of bounds" in w["err"] or "out of range" in w["err"]) else "failed"
                 note(vkey(rec, v, kind),
-                     f"{name} value {signed(v)} ({v:#x}) fits ({rec['sign']} {rec['n']}-bit) and is accepted by "
+                     f"{name} in {where} value {signed(v)} ({v:#x}) fits ({rec['sign']} {rec['n']}-bit) and is accepted by "
                      f"{' and '.join(k for k in ('ld', 'lld') if k in res)}, but wild fails: {w['err'].strip()[-160:]}",
                      meta, files)
             elif not fits and w["ok"]:
                 note(vkey(rec, v, "accepted"),
-                     f"{name} value {signed(v)} ({v:#x}) does not fit and is rejected by the references, but wild "
+                     f"{name} in {where} value {signed(v)} ({v:#x}) does not fit and is rejected by the references, but wild "
                      f"links it (field {w['word']})", meta, files)
             elif fits and not stored_ok(rec, w["word"], v, want_field):
                 note(vkey(rec, v, "wrong-field"),
-                     f"{name} value {signed(v)}: wild wrote {w['word']} & mask != {want_field:#x}", meta, files)
+                     f"{name} in {where} value {signed(v)}: wild wrote {w['word']} & mask != {want_field:#x}", meta, files)
         if spec_bugs:
             raise ToolError("GNU ld and lld agree with each other and contradict RelocRange.tla (spec bug): "
                             + repr(spec_bugs[:6]))
@@ -340,8 +396,9 @@ def run(ctx):
                                lambda key=key, meta=meta, files=files: save_replay(
                                    PROP, key.replace(":", "_"), files=files, meta=meta))
         pending.clear()
-    cov["e2e_links"] = sum(3 if recs[i]["arch"] == "x86_64" else 2 for i in todo)
     cov["e2e_cases"] = len(todo)
+    cov["e2e_cases_in_debug_sections"] = sum(1 for i in todo if recs[i]["place"] == "debug")
+    cov["e2e_link_groups"] = n_groups
     cov["e2e_votes"] = {k: sum(1 for x in e2e if x["vote"] == k) for k in ("accept", "reject", "split")}
     cov["aarch64_spec_vs_lld_no_verdict"] = lld_disagree[:12]
     cov["aarch64_spec_vs_lld_no_verdict_count"] = len(lld_disagree)
@@ -349,7 +406,7 @@ def run(ctx):
 
     # ---- F: the same cases + random values into the real table / write_to_buffer
     reqs, meta = [], []
-    for rec in recs:
+    for rec in alloc_recs:       # the real function has no notion of where the place is
         reqs.append({"arch": rec["arch"], "r_type": rec["rtype"], "value": rec["v_int"]})
         meta.append((rec, rec["v_int"], rec["fits"], rec["word_int"] & rec["mask_int"], "tlc"))
     n_rand = 1000 if ctx.quick else 10000
@@ -400,7 +457,7 @@ def run(ctx):
     cov["inprocess_cases_checked"] = f_checked
     cov["inprocess_cases_without_reference_support"] = f_skipped
     cov["relocation_types"] = len(types)
-    cov["samples"].append({"inprocess": reqs[len(recs) + 5], "result": res[len(recs) + 5]})
+    cov["samples"].append({"inprocess": reqs[len(alloc_recs) + 5], "result": res[len(alloc_recs) + 5]})
     cov["samples"] = trim_samples(cov["samples"], 5, 700)
     return {
         "level": "model_checking",
